@@ -5750,7 +5750,9 @@ class CodegenCtx:
         elif isinstance(intexpr, OutIntegerExpr):
             return f"state->c.{intexpr.ref.name}"
         elif isinstance(intexpr, StringLengthIntegerExpr):
-            return f"state->{intexpr.ref.name}_counter";
+            # a length is a plain non-negative int whatever type the counter is stored in (a uint32_t counter -- capacities from 65536 --
+            # would make the arithmetic around it unsigned: `s.len - 1` is 4294967295 for an empty string)
+            return f"(int32_t)state->{intexpr.ref.name}_counter"
         elif isinstance(intexpr, StringRefIntegerExpr):
             index = self._generate_code_for_int_expr(intexpr.index, ctx)
             # read the element as a byte value whatever the string's element type is (plain char may be signed)
